@@ -178,7 +178,7 @@ TOKENS = (sorted(pdp11_ref.MNEMONICS) + METANAMES + ["r0", "r1", "r5", "sp", "pc
           "%", "(", ")", "<", ">", "^", "\\", "\"", "'", "/", "+", "-", "*", "<<", ">>", "_", "&", "|", "!", "~", "^C", "^X", "^R", "^D", "^B", "^O", ".",
           "1$", "10$", "8", "9", "19", "0x", "0xFG", "177777", "200000", "1.", "65536.", "-1", "lab", "foo", "all", "\n", "\n", ";", "\t", " ", "@#", "-(", ")+",
           "'a", "\"ab", "<1>", "^/", ". =", ".=", "\"str\"", "'s'", "/s/"])
-CHARS = ["\0", "\t", "\r", "\n", " ", "\"", "'", "/", "\\", ";", ":", "=", "{", "}", "(", ")", "<", ">", "^", "#", "@", "%", "$", ".", ",", "+", "-",
+CHARS = ["\0", "\t", "\r", "\n", "\x0c", "\x0b", "\x1c", "\x85", "\u2028", "\u2029", " ", "\"", "'", "/", "\\", ";", ":", "=", "{", "}", "(", ")", "<", ">", "^", "#", "@", "%", "$", ".", ",", "+", "-",
          "8", "9", "0", "a", "Z", "_", "é", "я", "€", "字", "\x7f", "​", "﻿", "~", "!", "|", "&", "*"]
 
 
